@@ -7,6 +7,7 @@
 //@@ map k_(negate|abs|i16_try_from)__num  props=C08,C02,C03 kind=complete domain=Integer|Single|Double_full_bit_patterns
 //@@ map k_(sgn|int|fix|csng|cdbl|u16_try_from|u32_try_from|usize_try_from|f32_try_from|f64_try_from)__num  props=C02 kind=complete domain=Integer|Single|Double_full_bit_patterns
 //@@ map k_pos__all  props=C11 kind=complete domain=all_usize
+//@@ map k_line_number_roundtrip__all  props=C15,C14 kind=complete domain=all_u16_line_numbers
 // (the __nonnum harnesses build Rc<str> values and need 8-10 GB each in CBMC: not registered)
 //@@ file src/verif_ops.rs
 //! Postconditions of Operation::*, TryFrom<Val> and the numeric Function::*,
@@ -954,3 +955,15 @@ conv_harnesses!(u32, post_u32_try_from, k_u32_try_from__num, k_u32_try_from__non
 conv_harnesses!(usize, post_usize_try_from, k_usize_try_from__num, k_usize_try_from__nonnum);
 conv_harnesses!(f32, post_f32_try_from, k_f32_try_from__num, k_f32_try_from__nonnum);
 conv_harnesses!(f64, post_f64_try_from, k_f64_try_from__num, k_f64_try_from__nonnum);
+// DELETE / LIST / RENUM operands travel through the code as Single literals: the conversion there and back is the identity
+// on every valid line number, and a number above 65529 does not come back as a line number
+crate::vharness!(k_line_number_roundtrip__all, plain, |s| {
+    let n = s.u16();
+    let there = <crate::mach::Val as TryFrom<crate::lang::LineNumber>>::try_from(Some(n));
+    let back = match there {
+        Ok(v) => <crate::lang::LineNumber as TryFrom<crate::mach::Val>>::try_from(v),
+        Err(e) => Err(e),
+    };
+    vpost("line_number_roundtrip", || if n <= 65529 { matches!(back, Ok(Some(m)) if m == n) } else { back.is_err() });
+});
+
